@@ -1,6 +1,7 @@
 package main
 
 import (
+	gojson "encoding/json"
 	"context"
 	"github.com/hashicorp/hcl/v2"
 	"github.com/hashicorp/hcl/v2/hclsyntax"
@@ -74,5 +75,43 @@ func debugTokens(run *Run, replay string) {
 		t, err := d.SemanticTokensInFile(context.Background(), "main.tf")
 		b := pd.Ctx.Files["main.tf"].Body.(*hclsyntax.Body)
 		fmt.Printf("%q body=%v tokens=%d err=%v\n", src, b.Range(), len(t), err)
+	}
+}
+
+func init() { props["debug-c18"] = debugC18 }
+
+// debug-c18: DEBUG_REPLAY=<replay file>: targets and completion at the position, original vs translated
+func debugC18(run *Run, replay string) {
+	b, _ := os.ReadFile(os.Getenv("DEBUG_REPLAY"))
+	var d map[string]interface{}
+	gojson.Unmarshal(b, &d)
+	rp := d["violation"].(map[string]interface{})["replay"].(map[string]interface{})
+	src := rp["src"].(string)
+	ins := rp["inserted"].(string)
+	at := int(rp["insert_at"].(float64))
+	off := int(rp["offset"].(float64))
+	nsrc := src[:at] + ins + src[at:]
+	ctx := context.Background()
+	for i, s := range []string{src, nsrc} {
+		w := newWorld()
+		pd := w.AddPath("root", tfSchema(), map[string]string{"main.tf": s}, nil)
+		w.Collect()
+		o := off
+		if i == 1 && off >= at {
+			o += len(ins)
+		}
+		pos := lcTable([]byte(s))[o]
+		fmt.Println("== file", i, "pos", pos)
+		for _, t := range pd.Ctx.ReferenceTargets {
+			if len(t.LocalAddr) > 0 || t.TargetableFromRangePtr != nil {
+				fmt.Printf("  target %s local %s from %v range %v\n", t.Addr.String(), t.LocalAddr.String(), t.TargetableFromRangePtr, t.RangePtr)
+			}
+		}
+		dd, _ := w.Dec.Path(pd.Path)
+		cs, err := dd.CompletionAtPos(ctx, "main.tf", pos)
+		fmt.Println("  err", err)
+		for _, c := range cs.List {
+			fmt.Printf("  cand %s\n", c.Label)
+		}
 	}
 }
